@@ -1,4 +1,359 @@
-//! C11: harness domain (stub).
+//! C11 / C12: the term order. One universe of well-formed terms; all pairs (and triples) of it.
+use crate::canon::term_text;
+use crate::tgen::{gen_term, Cfg};
 use crate::Ctx;
+use erltf::types::{Atom, BigInt, ExternalFun, ExternalPid, ExternalPort, ExternalReference, InternalFun};
+use erltf::{BorrowedTerm, OwnedTerm};
+use std::cmp::Ordering;
+use std::collections::{BTreeMap, HashMap};
+use std::hash::{Hash, Hasher};
 
-pub fn run(_ctx: &mut Ctx) {}
+fn big(neg: bool, mut v: u128) -> OwnedTerm {
+    let mut d = vec![];
+    while v > 0 {
+        d.push((v & 0xff) as u8);
+        v >>= 8;
+    }
+    OwnedTerm::BigInt(BigInt::new(neg, d))
+}
+
+fn int(i: i64) -> OwnedTerm {
+    OwnedTerm::Integer(i)
+}
+fn fl(f: f64) -> OwnedTerm {
+    OwnedTerm::Float(f)
+}
+fn atom(s: &str) -> OwnedTerm {
+    OwnedTerm::Atom(Atom::new(s))
+}
+fn map(kv: Vec<(OwnedTerm, OwnedTerm)>) -> OwnedTerm {
+    let mut m = BTreeMap::new();
+    for (k, v) in kv {
+        m.insert(k, v);
+    }
+    OwnedTerm::Map(m)
+}
+fn ifun(arity: u8, num_free: u32, index: u32, free: Vec<OwnedTerm>) -> OwnedTerm {
+    OwnedTerm::InternalFun(Box::new(InternalFun::new(
+        arity,
+        [7u8; 16],
+        index,
+        num_free,
+        Atom::new("m"),
+        1,
+        2,
+        ExternalPid::new(Atom::new("a@h"), 1, 2, 3),
+        free,
+    )))
+}
+
+pub fn universe(ctx: &mut Ctx, extra: usize) -> Vec<OwnedTerm> {
+    let mut u: Vec<OwnedTerm> = vec![];
+    // numbers around every representation boundary, in every representation
+    for &i in &[0i64, 1, -1, 2, 255, 256, -256, 2147483647, 2147483648, -2147483648, -2147483649,
+        (1 << 53) - 1, 1 << 53, (1 << 53) + 1, (1 << 53) + 2, -(1 << 53) - 1, i64::MAX, i64::MAX - 1, i64::MIN, i64::MIN + 1] {
+        u.push(int(i));
+    }
+    for &(n, v) in &[(false, 1u128 << 40), (false, (1u128 << 53) + 1), (false, 1u128 << 63), (false, (1u128 << 63) - 1),
+        (true, 1u128 << 63), (true, (1u128 << 63) + 1), (false, 1u128 << 64), (false, (1u128 << 64) + 1),
+        (false, (2u128 << 64) + 1), (false, (1u128 << 64) + 2), (true, (2u128 << 64) + 1), (true, (1u128 << 64) + 2),
+        (false, 100000000000000000000u128), (true, 100000000000000000000u128), (false, 100000000000000000001u128),
+        (false, 5), (true, 5), (false, 0), (false, 300), (false, 1u128 << 100), (false, (1u128 << 100) + 1)] {
+        u.push(big(n, v));
+    }
+    for &f in &[0.0f64, -0.0, 0.5, 1.0, 1.5, -1.0, -0.5, 2.0, 255.0, 256.5, 9007199254740992.0, 9007199254740994.0,
+        9007199254740991.0, -9007199254740992.0, 9223372036854775808.0, -9223372036854775808.0, 9223372036854777856.0,
+        18446744073709551616.0, 1e20, -1e20, 1.0000000000000002e20, 1.2676506002282294e30, 5e-324, 2.2250738585072014e-308,
+        f64::MAX, f64::MIN, 4294967296.0, 2147483648.0, 36893488147419103232.0, 300.0, 5.0, -5.0, 1099511627776.0] {
+        u.push(fl(f));
+    }
+    for s in ["", "a", "ab", "b", "ok", "z", "é", "日本", "\u{10000}", "A"] {
+        u.push(atom(s));
+    }
+    let n1 = Atom::new("a@h");
+    let n2 = Atom::new("b@h");
+    u.push(OwnedTerm::Reference(ExternalReference::new(n1.clone(), 1, vec![1, 2, 3])));
+    u.push(OwnedTerm::Reference(ExternalReference::new(n1.clone(), 1, vec![1, 2])));
+    u.push(OwnedTerm::Reference(ExternalReference::new(n1.clone(), 2, vec![1, 2, 3])));
+    u.push(OwnedTerm::Reference(ExternalReference::new(n2.clone(), 1, vec![0])));
+    u.push(OwnedTerm::Reference(ExternalReference::with_local_ext_bytes(n1.clone(), 1, vec![1, 2, 3], vec![1u8; 20])));
+    u.push(OwnedTerm::ExternalFun(ExternalFun::new(Atom::new("m"), Atom::new("f"), 1)));
+    u.push(OwnedTerm::ExternalFun(ExternalFun::new(Atom::new("m"), Atom::new("f"), 2)));
+    u.push(OwnedTerm::ExternalFun(ExternalFun::new(Atom::new("m"), Atom::new("g"), 0)));
+    u.push(ifun(1, 0, 5, vec![]));
+    u.push(ifun(2, 0, 5, vec![])); // differs only in arity
+    u.push(ifun(1, 0, 6, vec![]));
+    u.push(ifun(1, 1, 5, vec![int(1)]));
+    u.push(ifun(1, 1, 5, vec![fl(1.0)]));
+    u.push(ifun(1, 2, 5, vec![int(1), int(2)]));
+    u.push(OwnedTerm::Port(ExternalPort::new(n1.clone(), 5, 1)));
+    u.push(OwnedTerm::Port(ExternalPort::new(n1.clone(), 1 << 40, 1)));
+    u.push(OwnedTerm::Port(ExternalPort::new(n1.clone(), 5, 2)));
+    u.push(OwnedTerm::Port(ExternalPort::with_local_ext_bytes(n1.clone(), 5, 1, vec![9u8; 12])));
+    u.push(OwnedTerm::Pid(ExternalPid::new(n1.clone(), 1, 2, 3)));
+    u.push(OwnedTerm::Pid(ExternalPid::new(n1.clone(), 1, 2, 4)));
+    u.push(OwnedTerm::Pid(ExternalPid::new(n1.clone(), 2, 0, 0)));
+    u.push(OwnedTerm::Pid(ExternalPid::new(n2.clone(), 0, 0, 0)));
+    u.push(OwnedTerm::Pid(ExternalPid::with_local_ext_bytes(n1.clone(), 1, 2, 3, vec![3u8; 16])));
+    // tuples
+    u.push(OwnedTerm::Tuple(vec![]));
+    u.push(OwnedTerm::Tuple(vec![int(1)]));
+    u.push(OwnedTerm::Tuple(vec![fl(1.0)]));
+    u.push(OwnedTerm::Tuple(vec![int(2)]));
+    u.push(OwnedTerm::Tuple(vec![int(1), int(2)]));
+    u.push(OwnedTerm::Tuple(vec![int(0), int(0), int(0)]));
+    u.push(OwnedTerm::Tuple(vec![atom("a"), big(false, 1 << 64)]));
+    u.push(OwnedTerm::Tuple(vec![atom("a"), fl(18446744073709551616.0)]));
+    // maps
+    u.push(map(vec![]));
+    u.push(map(vec![(atom("a"), int(1))]));
+    u.push(map(vec![(atom("a"), fl(1.0))]));
+    u.push(map(vec![(atom("a"), int(2))]));
+    u.push(map(vec![(atom("b"), int(0))]));
+    u.push(map(vec![(atom("a"), int(2)), (atom("b"), int(1))]));
+    u.push(map(vec![(atom("a"), int(1)), (atom("c"), int(0))]));
+    u.push(map(vec![(atom("a"), int(1)), (atom("b"), int(5))]));
+    u.push(map(vec![(int(1), atom("x")), (int(2), atom("y"))]));
+    u.push(map(vec![(int(1), atom("x")), (atom("k"), atom("y"))]));
+    u.push(map(vec![(OwnedTerm::Tuple(vec![int(1)]), atom("x"))]));
+    u.push(map(vec![(fl(1.0), atom("x")), (int(2), atom("y"))]));
+    u.push(map(vec![(OwnedTerm::Tuple(vec![fl(1.0)]), atom("x"))]));
+    // lists: nil, empty list, proper, improper, strings of chars
+    u.push(OwnedTerm::Nil);
+    u.push(OwnedTerm::List(vec![]));
+    u.push(OwnedTerm::List(vec![int(1)]));
+    u.push(OwnedTerm::List(vec![int(3)]));
+    u.push(OwnedTerm::List(vec![int(1), int(2)]));
+    u.push(OwnedTerm::List(vec![int(1), int(5)]));
+    u.push(OwnedTerm::List(vec![fl(1.0), int(2)]));
+    u.push(OwnedTerm::List(vec![int(2)]));
+    u.push(OwnedTerm::List(vec![OwnedTerm::List(vec![]), OwnedTerm::Nil]));
+    u.push(OwnedTerm::ImproperList { elements: vec![int(1)], tail: Box::new(int(2)) });
+    u.push(OwnedTerm::ImproperList { elements: vec![int(1)], tail: Box::new(int(3)) });
+    u.push(OwnedTerm::ImproperList { elements: vec![int(2)], tail: Box::new(int(3)) });
+    u.push(OwnedTerm::ImproperList { elements: vec![int(1), int(5)], tail: Box::new(atom("x")) });
+    u.push(OwnedTerm::ImproperList { elements: vec![int(1)], tail: Box::new(OwnedTerm::Binary(vec![])) });
+    u.push(OwnedTerm::ImproperList { elements: vec![int(1)], tail: Box::new(OwnedTerm::Tuple(vec![])) });
+    u.push(OwnedTerm::ImproperList { elements: vec![int(1), int(2)], tail: Box::new(OwnedTerm::Binary(vec![1])) });
+    // binaries, strings, bit-strings (unused bits zero)
+    for b in [vec![], vec![0u8], vec![1], vec![1, 2, 3], vec![1, 2, 4], vec![1, 2, 3, 4], vec![0x80], vec![0xc0], vec![0xff], vec![97]] {
+        u.push(OwnedTerm::Binary(b));
+    }
+    u.push(OwnedTerm::String("a".to_string()));
+    u.push(OwnedTerm::String("".to_string()));
+    u.push(OwnedTerm::String("abc".to_string()));
+    for (b, n) in [(vec![0x80u8], 1u8), (vec![0x80], 2), (vec![0xc0], 2), (vec![0x00], 1), (vec![1, 2, 0x00], 1), (vec![1, 2, 0x80], 1),
+        (vec![1, 2, 3], 8), (vec![1, 0x80], 7), (vec![97, 0x40], 2), (vec![0xfe], 7), (vec![0xff, 0x80], 1)] {
+        u.push(OwnedTerm::BitBinary { bytes: b, bits: n });
+    }
+    // generated well-formed terms
+    let cfg = Cfg { max_depth: 3, huge: false, local_ids: true, ..Cfg::default() };
+    for _ in 0..extra {
+        u.push(gen_term(&mut ctx.rng, &cfg, 1));
+    }
+    u
+}
+
+fn ord(o: Ordering) -> &'static str {
+    match o {
+        Ordering::Less => "lt",
+        Ordering::Equal => "eq",
+        Ordering::Greater => "gt",
+    }
+}
+
+fn h(t: &OwnedTerm) -> u64 {
+    let mut s = std::collections::hash_map::DefaultHasher::new();
+    t.hash(&mut s);
+    s.finish()
+}
+
+/// traversal-order markers of numeric kinds: terms that compare equal but differ here are distinct in Erlang's exact (`=:=`) sense
+fn num_shape(t: &OwnedTerm, out: &mut String) {
+    match t {
+        OwnedTerm::Integer(_) | OwnedTerm::BigInt(_) => out.push('i'),
+        OwnedTerm::Float(_) => out.push('f'),
+        OwnedTerm::Tuple(l) | OwnedTerm::List(l) => l.iter().for_each(|e| num_shape(e, out)),
+        OwnedTerm::ImproperList { elements, tail } => {
+            elements.iter().for_each(|e| num_shape(e, out));
+            num_shape(tail, out)
+        }
+        OwnedTerm::Map(m) => m.iter().for_each(|(k, v)| {
+            num_shape(k, out);
+            num_shape(v, out)
+        }),
+        OwnedTerm::InternalFun(f) => f.free_vars.iter().for_each(|e| num_shape(e, out)),
+        _ => out.push('.'),
+    }
+}
+
+fn map_keys<'a>(t: &'a OwnedTerm, out: &mut Vec<&'a OwnedTerm>) {
+    match t {
+        OwnedTerm::Tuple(l) | OwnedTerm::List(l) => l.iter().for_each(|e| map_keys(e, out)),
+        OwnedTerm::ImproperList { elements, tail } => {
+            elements.iter().for_each(|e| map_keys(e, out));
+            map_keys(tail, out)
+        }
+        OwnedTerm::Map(m) => m.iter().for_each(|(k, v)| {
+            out.push(k);
+            map_keys(k, out);
+            map_keys(v, out)
+        }),
+        OwnedTerm::InternalFun(f) => f.free_vars.iter().for_each(|e| map_keys(e, out)),
+        _ => {}
+    }
+}
+
+/// classifier of the recorded finding: map keys that are `==` but not `=:=` (1 vs 1.0) are ordered int-before-float by Erlang
+pub fn key_tie(a: &OwnedTerm, b: &OwnedTerm) -> bool {
+    let (mut ka, mut kb) = (vec![], vec![]);
+    map_keys(a, &mut ka);
+    map_keys(b, &mut kb);
+    for x in &ka {
+        for y in &kb {
+            if x.cmp(y) == Ordering::Equal {
+                let (mut sx, mut sy) = (String::new(), String::new());
+                num_shape(x, &mut sx);
+                num_shape(y, &mut sy);
+                if sx != sy {
+                    return true;
+                }
+            }
+        }
+    }
+    false
+}
+
+pub fn run(ctx: &mut Ctx) {
+    run_mode(ctx, false)
+}
+
+pub fn run_mode(ctx: &mut Ctx, c12: bool) {
+    let extra = ctx.n(60, 140);
+    let u = universe(ctx, extra);
+    let n = u.len();
+    ctx.add("universe", n as u64);
+    let texts: Vec<String> = u.iter().map(term_text).collect();
+    let mut m = vec![Ordering::Equal; n * n];
+    for i in 0..n {
+        for j in 0..n {
+            let o = match std::panic::catch_unwind(|| u[i].cmp(&u[j])) {
+                Ok(o) => o,
+                Err(_) => {
+                    ctx.fail("c11-cmp-panics", &format!("{} {}", texts[i], texts[j]));
+                    Ordering::Equal
+                }
+            };
+            m[i * n + j] = o;
+            ctx.count(match o {
+                Ordering::Less => "pairs_lt",
+                Ordering::Equal => "pairs_eq",
+                Ordering::Greater => "pairs_gt",
+            });
+            if c12 {
+                let tag = if key_tie(&u[i], &u[j]) { "kf-c12-map-key-exact" } else { "gen" };
+                ctx.prop(tag, &format!("c12cmp {} {}", texts[i], texts[j]), ord(o));
+            } else {
+                ctx.tie("gen", &format!("c11cmp {} {}", texts[i], texts[j]), ord(o));
+            }
+        }
+    }
+    ctx.add("exhaustive", 1);
+    if c12 {
+        // slice::sort and BTreeMap iteration order against the pairwise results
+        let mut sorted: Vec<usize> = (0..n).collect();
+        sorted.sort_by(|&a, &b| u[a].cmp(&u[b]));
+        for w in sorted.windows(2) {
+            if m[w[0] * n + w[1]] == Ordering::Greater {
+                ctx.fail("c12-sort-misplaces", &format!("{} sorted before {}", texts[w[0]], texts[w[1]]));
+            }
+        }
+        return;
+    }
+    // C11 laws on the implementation itself
+    for i in 0..n {
+        let bi = BorrowedTerm::from(&u[i]);
+        for j in 0..n {
+            let o = m[i * n + j];
+            if m[j * n + i] != o.reverse() {
+                ctx.fail("c11-not-antisymmetric", &format!("{} {} : {} / {}", texts[i], texts[j], ord(o), ord(m[j * n + i])));
+            }
+            let bj = BorrowedTerm::from(&u[j]);
+            if bi.cmp(&bj) != o {
+                ctx.fail("c11-borrowed-differs", &format!("{} {} : owned {} borrowed {}", texts[i], texts[j], ord(o), ord(bi.cmp(&bj))));
+            }
+            if u[i] == u[j] {
+                if o != Ordering::Equal {
+                    ctx.fail("c11-eq-not-cmp-equal", &format!("{} {}", texts[i], texts[j]));
+                }
+                if h(&u[i]) != h(&u[j]) {
+                    ctx.fail("c11-eq-hash-differs", &format!("{} {}", texts[i], texts[j]));
+                }
+                ctx.count("pairs_structurally_equal");
+            }
+        }
+    }
+    // transitivity: all triples
+    let mut bad = 0;
+    'outer: for i in 0..n {
+        for j in 0..n {
+            if m[i * n + j] == Ordering::Greater {
+                continue;
+            }
+            for k in 0..n {
+                if m[j * n + k] != Ordering::Greater && m[i * n + k] == Ordering::Greater {
+                    ctx.fail("c11-not-transitive", &format!("{} <= {} <= {} but first > third", texts[i], texts[j], texts[k]));
+                    bad += 1;
+                    if bad > 5 {
+                        break 'outer;
+                    }
+                }
+                // equality must be a congruence for the order
+                if m[i * n + j] == Ordering::Equal && m[i * n + k] != m[j * n + k] {
+                    ctx.fail("c11-not-transitive", &format!("{} = {} but they compare differently with {}", texts[i], texts[j], texts[k]));
+                    bad += 1;
+                    if bad > 5 {
+                        break 'outer;
+                    }
+                }
+            }
+        }
+    }
+    ctx.add("triples", (n * n * n) as u64);
+    // ordered and hashed containers neither lose nor duplicate
+    let mut bt: BTreeMap<OwnedTerm, usize> = BTreeMap::new();
+    let mut hm: HashMap<OwnedTerm, usize> = HashMap::new();
+    for (i, t) in u.iter().enumerate() {
+        bt.insert(t.clone(), i);
+        hm.insert(t.clone(), i);
+    }
+    for (i, t) in u.iter().enumerate() {
+        match bt.get(t) {
+            Some(&j) if m[i * n + j] == Ordering::Equal => {}
+            other => ctx.fail("c11-btreemap-loses", &format!("{} -> {:?}", texts[i], other)),
+        }
+        match hm.get(t) {
+            Some(&j) if u[j] == *t => {}
+            other => ctx.fail("c11-hashmap-loses", &format!("{} -> {:?}", texts[i], other)),
+        }
+    }
+    let classes = {
+        // number of equivalence classes of cmp == Equal
+        let mut reps: Vec<usize> = vec![];
+        for i in 0..n {
+            if !reps.iter().any(|&r| m[i * n + r] == Ordering::Equal) {
+                reps.push(i);
+            }
+        }
+        reps.len()
+    };
+    if bt.len() != classes {
+        ctx.fail("c11-btreemap-loses", &format!("BTreeMap holds {} keys for {} equivalence classes", bt.len(), classes));
+    }
+    let keys: Vec<&OwnedTerm> = bt.keys().collect();
+    for w in keys.windows(2) {
+        if w[0].cmp(w[1]) != Ordering::Less {
+            ctx.fail("c11-btreemap-misplaces", &format!("{} before {}", term_text(w[0]), term_text(w[1])));
+        }
+    }
+}
